@@ -170,7 +170,7 @@ def run_selftest(prop: str, root: str) -> dict:
     twins: list[Variant] = getattr(mod, "TWINS", [])
     base = _keys(prop, root, None)
     base_triples = {(k[0], k[1], k[2]) for k in base}
-    gtw = [("global", "whole-tree-unparse"), ("global", "whole-tree-local-rename"), ("global", "whole-tree-debug-log"), ("global", "whole-tree-no-annotations")]
+    gtw = [("global", "whole-tree-unparse"), ("global", "whole-tree-local-rename"), ("global", "whole-tree-debug-log"), ("global", "whole-tree-no-annotations"), ("global", "whole-tree-return-temp"), ("global", "whole-tree-if-inverted"), ("global", "whole-tree-else-after-exit")]
     jobs = [(prop, root, v, base) for v in mutants + twins] + [(prop, root, g, base) for g in gtw]
     with ProcessPoolExecutor(max_workers=min(16, max(1, len(jobs)))) as ex:
         results = list(ex.map(_one, jobs))
